@@ -167,6 +167,9 @@ def _events_prefix(M, p):
                 out.append(("validity", "not:" + ",".join(sorted(names.get(v, str(v)) for v in vals))))
             else:
                 out.append(("validity", names.get(taken, str(taken))))
+        elif common._validity_eq(e) is not None and truth is not None:
+            vname, _, is_ne = common._validity_eq(e)
+            out.append(("validity", vname if (truth != is_ne) else "not:" + vname))
     return out
 
 
